@@ -207,7 +207,11 @@ class Session:
 
     def train_iteration(self, vary_batch=True):
         self.model.train()
-        self.model.zero_grad()
+        # half of the sessions keep the gradient tensors and zero them in place (zero_grad(set_to_none=False)), the others
+        # drop them (the default): code that identifies a gradient by the tensor object must cope with both
+        if not hasattr(self, 'zero_in_place'):
+            self.zero_in_place = self.rng.random() < 0.5
+        self.model.zero_grad(set_to_none=not self.zero_in_place)
         sched = self.cfg.get('scale_schedule')
         if self.cfg.get('scale') and sched:
             # dynamic loss scaling: the scale changes between optimisation steps (never inside one)
